@@ -1,8 +1,9 @@
 ---------------------------- MODULE SeederTrace ----------------------------
 (* Trace specification for BaseSeeder.  The driver waits until the seeder is quiet after every  *)
 (* script step (reader loop idle, nothing pending), so "request"/"unregister" lines are logged  *)
-(* in the order in which the reader loop takes them; "send" lines come from the SendChunk        *)
-(* callback, "foreach" lines from the ForEachItem callback.                                      *)
+(* in the order in which the reader loop takes them; "send" lines are written on entry of the    *)
+(* SendChunk callback, "foreach" lines in the ForEachItem callback, "pending" lines are further  *)
+(* samples of the pending response memory.                                                       *)
 EXTENDS Seeder, TLC, Json, IOUtils
 
 Trace == ndJsonDeserialize(IOEnv.TRACE)
@@ -17,9 +18,10 @@ TRequest == Is("request") /\ Request(T.p, T.sid, T.chunks)
 TUnregister == Is("unregister") /\ Unregister(T.p)
 TSend == Is("send") /\ PendingOK(T.pending) /\ Send(T.p, T.sid, T.items, T.size, T.done)
 TForEach == Is("foreach") /\ PendingOK(T.pending) /\ UNCHANGED svars
+TPending == Is("pending") /\ PendingOK(T.pending) /\ UNCHANGED svars
 TQuiet == Is("quiet") /\ Quiet
 
-TNext == TReset \/ TRequest \/ TUnregister \/ TSend \/ TForEach \/ TQuiet
+TNext == TReset \/ TRequest \/ TUnregister \/ TSend \/ TForEach \/ TPending \/ TQuiet
 TSpec == TInit /\ [][TNext]_tvars
 
 Mark == TLCSet(1, IF l > TLCGet(1) THEN l ELSE TLCGet(1))
